@@ -282,6 +282,7 @@ pub fn rng_strategy() -> impl Strategy<Value = RngSpec> {
         1 => any::<u8>().prop_map(RngSpec::Const),
         1 => any::<u64>().prop_map(RngSpec::Period8),
         1 => any::<u64>().prop_map(RngSpec::Counter),
+        1 => Just(RngSpec::Os),
     ]
 }
 pub fn healthy_rng_strategy() -> impl Strategy<Value = RngSpec> {
